@@ -52,4 +52,11 @@ PROPS = {
         "modelled": EXTERNAL,
         "assumptions": ["arguments are live handles"],
     },
+    "C05": {
+        "suites": [("fspec", 400, 8000)],
+        "proved_scope": "IN PROGRESS",
+        "not_proved": "IN PROGRESS",
+        "modelled": EXTERNAL,
+        "assumptions": ["arguments are live handles", "when consolidation is on the forest holds no adjacent text nodes before the call (always true while consolidation was never switched off)"],
+    },
 }
